@@ -1,7 +1,7 @@
 (* Property C13: the library functions that carry Lua names agree with Lua 5.4.
    Only the property theorems, each closed by [exact] of a lemma and followed by Print Assumptions.
    [lua_*] = reference (lstrlib.c / lutf8lib.c / lmathlib.c / lvm.c), [nl_*] = Nelua's port. *)
-From C13 Require Import Model ModelDrv ModelPack ModelUtf8 ModelPat ModelPackFmt ModelFmt ProofsIdx ProofsOrd ProofsDrv ProofsPack ProofsUtf8 ProofsPat ProofsPackFmt ProofsFmt.
+From C13 Require Import Model ModelDrv ModelPack ModelUtf8 ModelPat ModelPackFmt ModelFmt ModelPackDrv ProofsIdx ProofsOrd ProofsDrv ProofsPack ProofsUtf8 ProofsPat ProofsPatFuel ProofsPackFmt ProofsFmt ProofsPackDrv.
 Local Open Scope Z_scope.
 
 (* ---- (a) index normalisation ---- *)
@@ -331,3 +331,82 @@ Theorem C13_c99_plain_d_is_decimal : forall v, in_i64 v ->
              c_width := 0; c_prec := None; c_ll := true; c_conv := 100 |} (u64 v) = decimal_of v.
 Proof. exact c99_plain_d. Qed.
 Print Assumptions C13_c99_plain_d_is_decimal.
+
+(* ---- (h, continued) the matcher: fuel and positions ---- *)
+(* the model's fuel is never the reason the matcher stops: every nested call and every `goto init` moves the
+   pattern position forward, so the nesting never exceeds the pattern length; holds for Lua's and the port's
+   configuration alike, whatever the recursion budget *)
+Theorem C13_match_fuel_never_exhausted : forall cfg src pat p0 s, 0 <= s -> 0 <= p0 ->
+  run_match cfg src pat p0 s <> MFuel.
+Proof. exact run_match_no_fuel. Qed.
+Print Assumptions C13_match_fuel_never_exhausted.
+
+(* ... and the bounds of the six inner loops (class end, bracket class, %b, maximum expansion count, the two
+   backtracking loops) are never what ends them: any larger bound gives the same result *)
+Theorem C13_match_loop_bounds_adequate : forall cfg src pat,
+  (forall n p, 0 <= p <= slen pat -> (length pat < n)%nat -> set_end pat (S (length pat)) p = set_end pat n p) /\
+  (forall n c p ec sig, 0 <= p -> ec <= slen pat -> (length pat < n)%nat ->
+     bracket_loop cfg pat (S (length pat)) c p ec sig = bracket_loop cfg pat n c p ec sig) /\
+  (forall n s b e cont, 0 <= s -> (length src < n)%nat ->
+     balance_loop src (S (length src)) s b e cont = balance_loop src n s b e cont) /\
+  (forall n s p ep, 0 <= s -> (length src < n)%nat ->
+     count_max cfg src pat (S (length src)) s p ep 0 = count_max cfg src pat n s p ep 0) /\
+  (forall n call caps s0 ep p ep', 0 <= s0 -> (length src < n)%nat ->
+     let i := count_max cfg src pat (S (length src)) s0 p ep' 0 in
+     max_down call caps s0 ep (S (length src)) i = max_down call caps s0 ep n i) /\
+  (forall n call caps ep p s1, 0 <= s1 -> (length src < n)%nat ->
+     min_up (fun x => single_match cfg src pat x p ep) call caps ep (S (length src)) s1 =
+     min_up (fun x => single_match cfg src pat x p ep) call caps ep n s1).
+Proof. exact loop_bounds_adequate. Qed.
+Print Assumptions C13_match_loop_bounds_adequate.
+
+(* "never reads outside its arguments", at the granularity of match(): [do_match_inv] checks on EVERY entry of
+   match() and every `goto init`, at any nesting depth, that the subject position is in [0, #subject], the
+   pattern position in [0, #pattern] (the terminator), every capture starts at or before the current position
+   and, once closed, ends inside the subject - and answers MUnsafe otherwise.  Started where find / match /
+   gmatch / gsub start it, the check never fails: the checking matcher IS the matcher. *)
+Theorem C13_match_positions_in_range : forall cfg src pat p0 s d, 0 <= s <= slen src -> 0 <= p0 <= slen pat ->
+  do_match_inv cfg src pat (match_fuel src pat) d [] s p0 = do_match cfg src pat (match_fuel src pat) d [] s p0.
+Proof. exact run_match_positions_in_range. Qed.
+Print Assumptions C13_match_positions_in_range.
+
+(* within one step: the byte after a single-character class (the optional suffix, pattern.data[ep]) is at most the
+   terminator; the maximum expansion and %b stay inside the subject *)
+Theorem C13_match_class_end_in_pattern : forall pat p ep, 0 <= p < plen pat -> class_end pat p = Some ep -> p < ep <= plen pat.
+Proof. exact class_end_range. Qed.
+Print Assumptions C13_match_class_end_in_pattern.
+
+Theorem C13_match_expansion_in_subject : forall cfg src pat f s p ep i, s + i <= slen_ src ->
+  s + count_max cfg src pat f s p ep i <= slen_ src.
+Proof. exact count_max_le. Qed.
+Print Assumptions C13_match_expansion_in_subject.
+
+Theorem C13_match_balance_in_subject : forall src f s b e cont s', balance_loop src f s b e cont = Some s' -> s < s' <= slen_ src.
+Proof. exact balance_range. Qed.
+Print Assumptions C13_match_balance_in_subject.
+
+(* ---- (f, continued) string.pack / string.unpack over a whole format ----
+   for every list of options (sized integers i[n] I[n] b B h H l L j J T, strings s[n] z c[n], x, X, < > =, ![n]) and
+   every list of values: whenever the port's pack succeeds (and the result is below 2 GiB), the port's unpack of the
+   result with the same options, from position 1, returns the same values (a c[n] string padded with zeros to n
+   bytes, as in Lua) and the position after the data + 1.  Covers the padding of pack against the padding of
+   unpack, the length prefix of s[n], the terminator of z and the integer codec. *)
+Theorem C13_pack_unpack_format_roundtrip : forall opts vals little out rest,
+  forallb opt_ok opts = true -> forallb val_ok vals = true ->
+  nl_pack_opts opts vals little 1 [] = Val (out, rest) -> slen out <= LUA_MAXSIZE ->
+  nl_unpack_opts opts out 0 little 1 = Val (expected opts vals, slen out + 1).
+Proof. exact pack_unpack_format_roundtrip0. Qed.
+Print Assumptions C13_pack_unpack_format_roundtrip.
+
+(* ---- string.find with plain = true: memory.find returns the first occurrence at or after the start, and
+   reports none only when there is none in the range it scans (lstrlib.c lmemfind) ---- *)
+Theorem C13_find_plain_first : forall s pat k pos st, plain_find k s pat pos = Some st ->
+  pos <= st <= pos + Z.of_nat k /\ is_prefix pat (skipn (Z.to_nat st) s) = true /\
+  forall j, pos <= j < st -> is_prefix pat (skipn (Z.to_nat j) s) = false.
+Proof. exact plain_find_first. Qed.
+Print Assumptions C13_find_plain_first.
+
+Theorem C13_find_plain_none : forall s pat k pos, plain_find k s pat pos = None ->
+  forall j, pos <= j <= pos + Z.of_nat k -> is_prefix pat (skipn (Z.to_nat j) s) = false.
+Proof. exact plain_find_none. Qed.
+Print Assumptions C13_find_plain_none.
